@@ -45,7 +45,7 @@ Proof. unfold stop_timer. destruct ot as [t|]; [|reflexivity]. destruct (nth_err
 Lemma InvC_start_rec s r c w f : InvC s -> InvC (start_rec s r c w f).
 Proof.
   intros H. unfold start_rec. set (x := getr s r).
-  destruct (negb f && rsucc x); [exact H|].
+  destruct (negb f && rsucc x || rnil x); [exact H|].
   destruct (negb f && is_some (rctx x) && negb (rexited x) && ctx_live s (rctx x)); [exact H|].
   cbn zeta. set (s2 := cancel_inst (stop_timer s (rretry x)) (rcancel x)).
   assert (H2 : InvC s2) by (apply InvC_cancel_inst, InvC_stop_timer, H).
@@ -123,7 +123,7 @@ Lemma InvC_reset_routine fx s k cond : InvC s -> InvC (fst (reset_routine fx s k
 Proof.
   intros H. unfold reset_routine. apply InvC_norm_ctx in H. revert H. generalize (norm_ctx s). clear s. intros s H. unfold reset_core.
   destruct (lookup (kmap s) k) as [r|]; [|exact H]. destruct (negb (cond_match cond k)); [exact H|].
-  set (s1 := cancel_inst s (rcancel (getr s r))). set (w0 := if has_ctx s1 || fx_reset fx then _ else _).
+  set (s1 := cancel_inst s (rcancel (getr s r))). match goal with |- context [new_record s1 k _ ?w] => set (w0 := w) end.
   pose proof (InvC_new_record s1 k (rlin (getr s r)) w0 (InvC_cancel_inst s _ H)) as G.
   destruct (new_record s1 k (rlin (getr s r)) w0) as [s2 r2]. cbn [fst] in *.
   destruct (has_ctx s2); [now apply InvC_start_rec | exact G].
@@ -226,6 +226,7 @@ Proof.
   - unfold advance. revert H. cext.
   - now apply InvC_timer_cb.
   - now apply InvC_cancel_root.
+  - revert H. cext.
 Qed.
 Theorem run_InvC fx dl sc es : InvC (run fx (init dl sc) es).
 Proof. unfold run. apply fold_inv; [intros s e; apply step_InvC|]. intros [|i] x Hx; discriminate. Qed.
